@@ -598,6 +598,31 @@ func checkParserTables(c *Ctx) {
 	}
 	// no: values
 	ncases := stringCases(parse, func(v ssa.Value) bool { return hasField(v, "value") })
+	// the values of 'no:' may be dispatched by a same-package helper called from the 'no' case with the token's value
+	if noEntry, hasNo := qcases["no"]; hasNo {
+		for _, b := range caseBodyBlocks(noEntry) {
+			for _, ins := range b.Instrs {
+				cv, isCall := ins.(*ssa.Call)
+				if !isCall {
+					continue
+				}
+				h := cv.Common().StaticCallee()
+				if h == nil || h.Pkg != parse.Pkg || len(h.Blocks) == 0 {
+					continue
+				}
+				for i, a := range cv.Common().Args {
+					if i < len(h.Params) && hasField(a, "value") {
+						hp := h.Params[i]
+						for k, blk := range stringCases(h, func(v ssa.Value) bool { return v == ssa.Value(hp) }) {
+							if _, dup := ncases[k]; !dup {
+								ncases[k] = blk
+							}
+						}
+					}
+				}
+			}
+		}
+	}
 	for v := range doc.no {
 		entry, ok := ncases[v]
 		okSet := false
@@ -1480,9 +1505,20 @@ func checkTokenize(c *Ctx) {
 							}
 						}
 					}
-					if cond.Op == token.GEQ && cc.Edge == 0 {
-						if k, isK := constInt(cond.Y); isK && k == 2 {
-							long = true
+					// len(runes) >= 2 in any spelling, on whichever edge
+					cx, cy, cop := cond.X, cond.Y, cond.Op
+					if _, xConst := cx.(*ssa.Const); xConst {
+						cx, cy, cop = cy, cx, swapOp(cop)
+					}
+					if lc, isCall := cx.(*ssa.Call); isCall {
+						if bi, isB := lc.Common().Value.(*ssa.Builtin); isB && bi.Name() == "len" {
+							op := cop
+							if cc.Edge == 1 {
+								op = negateOp(op)
+							}
+							if k, isK := constInt(cy); isK && ((op == token.GEQ && k == 2) || (op == token.GTR && k == 1)) {
+								long = true
+							}
 						}
 					}
 				case *ssa.Call:
